@@ -203,8 +203,11 @@ def do_table():
         if not os.path.exists(metap):
             continue
         m = json.load(open(metap))
-        det = "; ".join("%s: %s" % (c, ", ".join(sorted(set(v))[:3])) for c, v in sorted(m.get("detected_by", {}).items())) or "-"
-        rows.append("| %s | %s | %s | %s | %s |" % (mid, m["property"], m.get("needs_to_manifest", "").replace("|", "/")[:160], det, ", ".join(m.get("not_detected_by", [])) or "-"))
+        db, nd, tag = m.get("detected_by"), m.get("not_detected_by", []), ""
+        if db is None and "detected_by_lite" in m:
+            db, nd, tag = m["detected_by_lite"], m.get("not_detected_by_lite", []), " (one-process run)"
+        det = "; ".join("%s: %s" % (c, ", ".join(sorted(set(v))[:3])) for c, v in sorted((db or {}).items())) or ("-" if db is not None else "not run")
+        rows.append("| %s | %s | %s | %s | %s |" % (mid, m["property"], m.get("needs_to_manifest", "").replace("|", "/")[:160], det + tag, ", ".join(nd) or "-"))
     p = os.path.join(VERIF, "DESIGN.md")
     s = open(p).read()
     a = s.index("<!-- SEEDED-TABLE-BEGIN -->") + len("<!-- SEEDED-TABLE-BEGIN -->")
